@@ -265,7 +265,8 @@ private:
         do {
             // TODO: consider logic from get_task to simplify the code.
             d1::task* result = *--curr;
-            if( result && task_accessor::isolation(*result) == isolation ) {
+            // A resume task is not subject to isolation (it carries no tag): whoever finds it continues the suspended task
+            if( result && (task_accessor::isolation(*result) == isolation || task_accessor::is_resume_task(*result)) ) {
                 if( queue.end() - curr == 1 )
                     queue.pop_back(); // a little of housekeeping along the way
                 else
